@@ -3,7 +3,9 @@ import MalVerif.Py.TieLegacyBase
 # Tie of the translated 0.0.39 loader: the asset loop
 
 `asset_sim`: the body of the asset loop of the GENERATED `updater_process_model` (`assetBody`), run on the encoding
-of one asset entry of a typed document, is one step `Legacy.loadOldAsset` of the hand-written model.
+of one asset entry of a typed document, is one step `Legacy.loadOldAsset` of the hand-written model; when it raises, the
+hand model rejects with an error that agrees with the exception (`OldErrAgree`; the error sites are the branches of
+`asset_core`).
 -/
 namespace MalVerif.PyLeg.Tie
 open MalVerif MalVerif.PyM MalVerif.PyM.Gen MalVerif.PyM.Tie MalVerif.PyLeg MalVerif.PyLeg.Gen MalVerif.Legacy
@@ -105,7 +107,7 @@ def defGuard (fac : Factory) (ty : String) (d : String × String) : Bool :=
   (MS.defensesOf fac.L ty).any (·.1 = d.1) && fac.floatOk d.2
 
 /-- the defenses loop on the new object: all assignments pass their guards and the object holds the defenses of the
-entry, or one of them raises -/
+entry, or one of them raises: `ValidationError` (value out of range), or `unmodelled` (not a defense of the class) -/
 theorem defenses_loop (fac : Factory) (s : H) (all : List (String × String)) (hall : (all.map (·.1)).Nodup) :
     ∀ (ds : List (String × String)) (o : PyAsset), (∀ d ∈ ds, d ∈ all) → ((o.defenses ++ ds).map (·.1)).Nodup →
       (ds.all (defGuard fac o.type) = true →
@@ -113,7 +115,7 @@ theorem defenses_loop (fac : Factory) (s : H) (all : List (String × String)) (h
           .ok (newAssetObj s { o with defenses := o.defenses ++ ds })) ∧
       (ds.all (defGuard fac o.type) = false →
         ∃ e, forIn (ds.map (fun d => PyJ.str d.1)) (newAssetObj s o) (defenseBody fac s.afresh (defsJ all)) =
-          .error e) := by
+          .error e ∧ (e = .validation ∨ e = .unmodelled)) := by
   intro ds
   induction ds with
   | nil =>
@@ -145,10 +147,13 @@ theorem defenses_loop (fac : Factory) (s : H) (all : List (String × String)) (h
     · have hg' : ¬ ((MS.defensesOf fac.L o.type).any (·.1 = d.1) && fac.floatOk d.2) = true := hg
       rw [if_neg hg'] at hstep
       rw [forIn_cons_err _ _ _ _ _ hstep]
-      refine ⟨?_, fun _ => ⟨_, rfl⟩⟩
-      intro h
-      rw [Bool.and_eq_true] at h
-      exact absurd h.1 hg
+      refine ⟨?_, fun _ => ⟨_, rfl, ?_⟩⟩
+      · intro h
+        rw [Bool.and_eq_true] at h
+        exact absurd h.1 hg
+      · cases (MS.defensesOf fac.L o.type).any (·.1 = d.1)
+        · exact Or.inr rfl
+        · exact Or.inl rfl
 
 /-! ### the hand model on one entry -/
 
@@ -192,7 +197,8 @@ theorem asset_core (env : ModelEnv) (fac : Factory) (k : Key) (mc nm : String) (
     (n : Nat) (s : H) (hP : PA env (n + 1) s) :
     (∀ r, assetRun env fac k mc nm defs s = .ok r →
       ∃ s1, r = .yield s1 ∧ handStep fac k mc nm defs dOk (abs s) = .ok (abs s1) ∧ PA env n s1) ∧
-    (∀ e, assetRun env fac k mc nm defs s = .error e → ∃ er, handStep fac k mc nm defs dOk (abs s) = .error er) := by
+    (∀ e, assetRun env fac k mc nm defs s = .error e →
+      ∃ er, handStep fac k mc nm defs dOk (abs s) = .error er ∧ OldErrAgree e er) := by
   obtain ⟨hI, hfuel, hep⟩ := hP
   have hfresh : s.afresh ∉ s.assets := hI.assets.fresh_not_mem
   have hfuel1 : s.asset_names.length + 1 ≤ env.whileFuel := by omega
@@ -207,11 +213,12 @@ theorem asset_core (env : ModelEnv) (fac : Factory) (k : Key) (mc nm : String) (
         | some _ => rw [h] at hcls; cases hcls
       simp only [this]; rfl
     rw [hns]
-    refine ⟨fun r h => (by cases h), fun e _ => ?_⟩
+    refine ⟨fun r h => (by cases h), fun e h => ?_⟩
+    cases h
     cases k.toInt? with
-    | none => exact ⟨_, rfl⟩
+    | none => exact ⟨.valueError, rfl, by decide⟩
     | some id =>
-      refine ⟨.lookupError, ?_⟩
+      refine ⟨.lookupError, ?_, by decide⟩
       show MS.addAsset fac.L (abs s) mc (some nm) defs dOk "{}" (some id) true = _
       rw [addAsset_eq_core, if_pos hcls]
   · have hns : nsNewAsset fac s (PyJ.str mc) (PyJ.str nm) =
@@ -236,7 +243,9 @@ theorem asset_core (env : ModelEnv) (fac : Factory) (k : Key) (mc nm : String) (
       cases hk : k.toInt? with
       | none =>
         rw [jInt_keyJ_none k hk]
-        exact ⟨fun r h => (by cases h), fun e _ => ⟨_, rfl⟩⟩
+        refine ⟨fun r h => (by cases h), fun e h => ?_⟩
+        cases h
+        exact ⟨.valueError, rfl, by decide⟩
       | some id =>
         rw [jInt_keyJ_some k id hk]
         have tie := add_asset_tie s env hfresh hfuel1
@@ -250,7 +259,9 @@ theorem asset_core (env : ModelEnv) (fac : Factory) (k : Key) (mc nm : String) (
         | error e0 =>
           rw [hm] at tie
           dsimp only [liftPy]
-          refine ⟨fun r h => (by cases h), fun e _ => ⟨errAbs e0, ?_⟩⟩
+          refine ⟨fun r h => (by cases h), fun e h => ?_⟩
+          cases h
+          refine ⟨errAbs e0, ?_, OldErrAgree.py e0⟩
           rw [hhand]; exact tie.symm
         | ok s1 =>
           rw [hm] at tie
@@ -280,15 +291,19 @@ theorem asset_core (env : ModelEnv) (fac : Factory) (k : Key) (mc nm : String) (
         cases h : defs.all (defGuard fac mc) with
         | false => rfl
         | true => exact absurd h hg
-      obtain ⟨e0, hloop⟩ := lerr hg'
+      obtain ⟨e0, hloop, he0⟩ := lerr hg'
       simp only [bind, Except.bind, hloop]
-      refine ⟨fun r h => (by cases h), fun e _ => ?_⟩
+      refine ⟨fun r h => (by cases h), fun e h => ?_⟩
+      cases h
       cases k.toInt? with
-      | none => exact ⟨_, rfl⟩
+      | none =>
+        refine ⟨.valueError, rfl, ?_⟩
+        rcases he0 with he0 | he0 <;> subst he0 <;> decide
       | some id =>
-        refine ⟨.validation, ?_⟩
-        show MS.addAsset fac.L (abs s) mc (some nm) defs dOk "{}" (some id) true = _
-        rw [addAsset_eq_core, if_neg hcls, hgd, hg']; rfl
+        refine ⟨.validation, ?_, ?_⟩
+        · show MS.addAsset fac.L (abs s) mc (some nm) defs dOk "{}" (some id) true = _
+          rw [addAsset_eq_core, if_neg hcls, hgd, hg']; rfl
+        · rcases he0 with he0 | he0 <;> subst he0 <;> decide
 
 /-! ### the simulation -/
 
